@@ -249,6 +249,19 @@ Definition mon_once (m : monst) (e o : list N) : monst * list (nat * nat) :=
      of a context is context.Canceled itself, never the context's own Err() (DeadlineExceeded, status 12) nor its
      cancellation cause (status 13), whatever kind of context the caller (or the starter of the invocation) brought *)
   let f10 := existsb (fun z : mact * (N * N) => N.eqb (fst (snd z)) 12 || N.eqb (fst (snd z)) 13) zs in
+  (* clause 11: "a caller whose context is cancelled never arrives at gate 1 again": Resolve checks ctx.Err() at the top of
+     its loop, before gate 1, so a caller whose context was already cancelled BEFORE this step and that is let run from
+     its gate (event [3 j _]) returns (a result that was ready, or context.Canceled); it is never seen parked at gate 1
+     after that step.  (A [4 j] event on a caller parked at gate 1 leaves it there: only [3 j _] events are judged, with
+     the cancellation flag as it was before the event) *)
+  let f11 :=
+    match e with
+    | [3; j; _] => match nth_error (macts m) (N.to_nat j), nth_error ps (N.to_nat j) with
+                   | Some a, Some p => mcaller a && mcanc a && N.eqb (fst p) 1
+                   | _, _ => false
+                   end
+    | _ => false
+    end%N in
   (* 3. bookkeeping *)
   let err_returned := fun e : N => existsb (fun z : mact * (N * N) => N.eqb (fst (snd z)) 5 && N.eqb (snd (snd z)) e) zs in
   let acts3 :=
@@ -272,7 +285,8 @@ Definition mon_once (m : monst) (e o : list N) : monst * list (nat * nat) :=
     (if f5 then [(16, 5)] else []) ++
     (if f8 then [(16, 8)] else []) ++
     (if f9 then [(16, 9)] else []) ++
-    (if f10 then [(16, 10)] else []) in
+    (if f10 then [(16, 10)] else []) ++
+    (if f11 then [(16, 11)] else []) in
   ({| mstepno := S i; macts := acts3; msucc := succ1 |}, fails).
 
 Definition run_check_once (cfg : list N) (evs obss : list (list N)) : list issue :=
